@@ -98,6 +98,21 @@ SET_METHODS = {'intersection', 'union', 'difference', 'symmetric_difference'}
 SETOPS = (ast.Sub, ast.BitAnd, ast.BitOr, ast.BitXor)
 
 
+# type hints for expressions the inference cannot type (unannotated parameters, attributes, values coming out of untyped
+# containers).  Every entry was found by the run-time cross-check (harness/checks/C19.py runtime_audit): a set iteration was
+# EXECUTED at a place the static audit did not list.  (file, function) -> {source text of the expression: abstract type}
+HINTS = {
+    ('chython/algorithms/aromatics/kekule.py', '_kekule_component'): {'double_bonded': 'set'},
+    ('chython/algorithms/rings.py', '_bfs'): {'bonds': 'dos'},
+    ('chython/algorithms/standardize/resonance.py', 'Resonance.fix_resonance'): {'entries': 'set'},
+    ('chython/algorithms/stereo.py', 'MoleculeStereo.__differentiation'): {'atoms_stereo': 'set', 'cis_trans_stereo': 'set', 'allenes_stereo': 'set'},
+    ('chython/algorithms/tautomers/keto_enol.py', 'KetoEnol.__enumerate_bonds'): {'dirs': 'set'},
+    ('chython/containers/molecule.py', 'MoleculeContainer.fix_structure'): {'self._changed': 'set'},
+    ('chython/reactor/base.py', 'BaseReactor._get_deleted'): {'self._to_delete': 'set'},
+    ('chython/reactor/reactor.py', 'Reactor._single_stage'): {'ignored': 'set'},
+}
+
+
 def ann_type(node):
     """abstract type of an annotation expression"""
     if node is None:
@@ -179,6 +194,17 @@ class FuncAudit:
 
     def typ(self, e):
         env = self.env
+        hints = HINTS.get((self.rel, self.qual))
+        if hints and isinstance(e, (ast.Name, ast.Attribute, ast.Subscript)):
+            h = hints.get(ast.unparse(e))
+            if h:
+                return h
+        if isinstance(e, ast.BoolOp):          # `a or b`: either operand
+            for v in e.values:
+                tv = self.typ(v)
+                if tv:
+                    return tv
+            return None
         if isinstance(e, (ast.Set, ast.SetComp)):
             return 'set'
         if isinstance(e, ast.Name):
